@@ -162,10 +162,17 @@ def render_top(backend: str, q: Dict[str, Any], md: Optional[List[Dict[str, Any]
 
 NUM = ("int", "double")
 SHADOW_PCT = 27  # per cent of the generated queries in which the shadowing pass is attempted (see Gen.shadow_pass)
+FIRST_LAZY_PCT = 7  # per cent of the generated queries replaced by one of the family `First() over a projection whose value is a declared variable` (see Gen.first_lazy_pass)
+LABEL_PCT = 55  # per cent of the final rows with >= 2 dict columns whose labels are replaced by a group of near-identical labels (see label_pass)
+LABEL_ROW_PCT = 12  # ... of the final tuple / list rows with >= 2 columns that are turned into such a dict
 
 
 class Gen:
-    def __init__(self, rng, backend: str, allow_first=True, allow_minmax=False, allow_fn=True, max_depth=3, strict=True, guard_w=1, shadow=SHADOW_PCT):
+    def __init__(self, rng, backend: str, allow_first=True, allow_minmax=False, allow_fn=True, max_depth=3, strict=True, guard_w=1, shadow=SHADOW_PCT, first_lazy=FIRST_LAZY_PCT, labels=LABEL_PCT):
+        self.first_lazy = first_lazy  # per cent of the queries replaced by the first-of-lazy-projection family (decided by the query's own text)
+        self.first_lazy_form = None  # (value form, terminal form) of the last query when it is of that family
+        self.labels = labels  # per cent of the final dict rows that get a group of near-identical labels (decided by the query's own text)
+        self.labelled = None  # the label group given to the last query's final row
         self.shadow = shadow  # per cent of the queries in which the shadowing pass is attempted (decided by the query's own text)
         self.sites: List[Tuple[Dict[str, Any], str, Any, str]] = []  # numeric expressions in the scope of an object parameter: (node, parameter, its type, type of the node)
         self.shadowed = 0  # number of parameters the pass renamed in the last query
@@ -729,6 +736,294 @@ class Gen:
         self.shadowed_strong += 1
         return True
 
+    # ---- First() over a projection whose value is a declared variable
+    def first_lazy_pass(self, q, names, form):
+        """In a fixed share of the queries (decided by the query's own text: no draw from the generator's random
+        stream) the query is REPLACED by one of the family
+            coll[.Where(p)].Select(lambda j: V)[.Where(lambda v: …)].First()
+        where the translator has to emit statements for V and holds its value in a declared variable: a conditional
+        expression, an and / or, a Count() / Sum() / Aggregate() over a sub-collection (or over another collection,
+        compared with j). First() must capture the value the FIRST kept element gives, inside its `if (is_first)`
+        guard. The new query ranges over exactly the banks of the one it replaces (the events drawn for it consume
+        the same random numbers); `gen_event` makes the first events of such a query rich (see `enrich_event`)."""
+        import random as _random
+        import zlib
+
+        self.first_lazy_form = None
+        if not self.allow_first or self.first_lazy <= 0:
+            return q, names, form
+        h = zlib.crc32(("first-lazy|" + json.dumps(q, sort_keys=True)).encode())
+        if h % 100 >= self.first_lazy:
+            return q, names, form
+        banks = dict(banks_used(q))
+        if not banks:
+            return q, names, form
+        r = _random.Random(h)
+        q2, names2, form2 = self._first_lazy(r, banks)
+        self.banks = dict(banks)
+        self.ops = dict(ops_used(q2))
+        return q2, names2, form2
+
+    def _fl_value(self, r, x, ev=None, other=None):
+        """(V, type, form): an expression over the element x (an object) whose value the translator keeps in a
+        variable it declares. `other` = (collection, bank) of another collection of the event `ev`."""
+        M = lambda n, v=x: {"k": "meth", "o": {"k": "var", "n": v}, "n": n}
+        I = lambda *vs: {"k": "int", "v": r.choice(vs)}
+        D = lambda *vs: {"k": "dbl", "v": r.choice(vs)}
+        num = lambda v=x: M(r.choice(["d", "g", "f", "i", "d"]), v)
+        def cond(v=x):
+            c = r.choice(["b", "d", "i", "g"])
+            if c == "b":
+                return M("b", v)
+            if c == "i":
+                return {"k": "cmp", "op": r.choice([">", ">=", "<", "!="]), "a": M("i", v), "b": I(0, 1, 2)}
+            return {"k": "cmp", "op": r.choice([">", "<", ">="]), "a": M(c, v), "b": D("0.5", "1.5", "2.0", "1.0")}
+        def kids_chain(v=x, filt=None):
+            s = {"k": "meth", "o": {"k": "var", "n": v}, "n": "kids"}
+            if filt if filt is not None else r.random() < 0.4:
+                k = self.fresh()
+                s = {"k": "Where", "s": s, "x": k, "f": cond(k)}
+            return s
+        forms = ["if", "if", "if_const", "and", "or", "and3", "count_kids", "count_kids", "count_vs", "sum_kids", "sum_kids", "sum_vs", "agg", "if_count", "if_nested", "first_guarded"]
+        if ev is not None and other is not None:
+            forms += ["count_cross", "count_cross"]
+        if self.allow_minmax:
+            forms += ["max_kids"]
+        form = r.choice(forms)
+        if form == "if":
+            return {"k": "if", "c": cond(), "a": num(), "b": num()}, "double", form
+        if form == "if_const":
+            arms = [num(), D("0.25", "10.0", "-1.5")]
+            r.shuffle(arms)
+            return {"k": "if", "c": cond(), "a": arms[0], "b": arms[1]}, "double", form
+        if form in ("and", "or"):
+            return {"k": form, "a": cond(), "b": cond()}, "bool", form
+        if form == "and3":
+            k = r.choice(["and", "or"])
+            return {"k": k, "flat": True, "a": {"k": k, "a": cond(), "b": cond()}, "b": cond()}, "bool", form
+        if form == "count_kids":
+            return {"k": "Count", "s": kids_chain()}, "int", form
+        if form == "count_vs":
+            s = {"k": "meth", "o": {"k": "var", "n": x}, "n": "vs"}
+            if r.random() < 0.5:
+                v = self.fresh()
+                s = {"k": "Where", "s": s, "x": v, "f": {"k": "cmp", "op": r.choice([">", "<"]), "a": {"k": "var", "n": v}, "b": D("0.5", "1.5")}}
+            return {"k": "Count", "s": s}, "int", form
+        if form == "count_cross":
+            t = self.fresh()
+            oc, ob = other
+            src = {"k": "coll", "e": {"k": "var", "n": ev}, "c": oc, "bank": ob}
+            m = r.choice(["d", "g", "i"])
+            return {"k": "Count", "s": {"k": "Where", "s": src, "x": t, "f": {"k": "cmp", "op": r.choice([">", "<", ">="]), "a": M(m, t), "b": M(m)}}}, "int", form
+        if form == "sum_kids":
+            k = self.fresh()
+            m = r.choice(["d", "g", "i", "d"])
+            return {"k": "Sum", "s": {"k": "Select", "s": kids_chain(), "x": k, "f": M(m, k)}}, ("int" if m == "i" else "double"), form
+        if form == "sum_vs":
+            s = {"k": "meth", "o": {"k": "var", "n": x}, "n": "vs"}
+            if r.random() < 0.5:
+                v = self.fresh()
+                s = {"k": "Select", "s": s, "x": v, "f": {"k": "bin", "op": "*", "a": {"k": "var", "n": v}, "b": I(2, 3)}}
+            return {"k": "Sum", "s": s}, "double", form
+        if form == "max_kids":
+            k = self.fresh()
+            return {"k": r.choice(["Min", "Max"]), "s": {"k": "Select", "s": kids_chain(filt=False), "x": k, "f": M("d", k)}}, "double", form
+        if form == "agg":
+            a, k = self.fresh("acc"), self.fresh("v")
+            if r.random() < 0.5:
+                return {"k": "Aggregate", "s": kids_chain(), "seed": D("0.5", "0.0", "1.5"), "acc": a, "x": k, "f": {"k": "bin", "op": "+", "a": {"k": "var", "n": a}, "b": M(r.choice(["d", "g"]), k)}}, "double", form
+            return {"k": "Aggregate", "s": kids_chain(), "seed": I(0, 1), "acc": a, "x": k, "f": {"k": "bin", "op": "+", "a": {"k": "var", "n": a}, "b": M(r.choice(["i", "j"]), k)}}, "int", form
+        if form == "if_count":
+            return {"k": "if", "c": {"k": "cmp", "op": r.choice([">", ">=", "=="]), "a": {"k": "Count", "s": kids_chain()}, "b": I(0, 1, 2)}, "a": num(), "b": num()}, "double", form
+        if form == "if_nested":
+            inner = {"k": "if", "c": cond(), "a": num(), "b": D("0.25", "10.0")}
+            if r.random() < 0.5:
+                return {"k": "if", "c": cond(), "a": inner, "b": num()}, "double", form
+            return {"k": "if", "c": cond(), "a": num(), "b": inner}, "double", form
+        # the element's own first child, guarded
+        import copy
+
+        k = self.fresh()
+        s = {"k": "Select", "s": kids_chain(), "x": k, "f": M(r.choice(["d", "g"]), k)}
+        return {"k": "if", "c": {"k": "cmp", "op": ">", "a": {"k": "Count", "s": copy.deepcopy(s)}, "b": {"k": "int", "v": 0}}, "a": {"k": "First", "s": s}, "b": D("0.5", "-1.5")}, "double", "first_guarded"
+
+    def _fl_chain(self, r, src, ev=None, other=None):
+        """src[.Where(p)].Select(lambda j: V)[.Where(lambda v: …)]  ->  (sequence, type of V, value form)"""
+        M = lambda n, v: {"k": "meth", "o": {"k": "var", "n": v}, "n": n}
+        if r.random() < 0.4:
+            w = self.fresh()
+            p = r.choice([M("b", w), {"k": "cmp", "op": r.choice([">", "<", ">="]), "a": M(r.choice(["d", "g"]), w), "b": {"k": "dbl", "v": r.choice(["0.5", "1.0", "1.5"])}}, {"k": "cmp", "op": r.choice([">", ">=", "!="]), "a": M("i", w), "b": {"k": "int", "v": r.choice([0, 1])}}])
+            src = {"k": "Where", "s": src, "x": w, "f": p}
+        x = self.fresh()
+        v, ty, vform = self._fl_value(r, x, ev, other)
+        s = {"k": "Select", "s": src, "x": x, "f": v}
+        if ty != "bool" and r.random() < 0.12:
+            y = self.fresh()
+            s = {"k": "Where", "s": s, "x": y, "f": {"k": "cmp", "op": r.choice([">", ">=", "<"]), "a": {"k": "var", "n": y}, "b": {"k": "int", "v": r.choice([0, 1, 2])}}}
+            vform += "+where"
+        return s, ty, vform
+
+    def _first_lazy(self, r, banks):
+        import copy
+
+        bl = sorted(banks.items())
+        bank, c = r.choice(bl)
+        rest = [(b, cc) for b, cc in bl if b != bank]
+        e = self.fresh("e")
+        E = lambda: {"k": "var", "n": e}
+        C = lambda b, cc, ev=None: {"k": "coll", "e": {"k": "var", "n": ev or e}, "c": cc, "bank": b}
+        ds = {"k": "ds"}
+        terms = ["col", "col", "arith", "guarded", "cmp", "two", "row", "row", "where", "nested"]
+        if len(bl) == 1:
+            terms += ["two_step", "two_step", "per_object", "per_object"]
+        term = r.choice(terms)
+        other = None
+        if rest:
+            ob, oc = rest[0]
+            other = (oc, ob)
+        used = {bank}
+
+        def note(vform):
+            if "count_cross" in vform and other:
+                used.add(other[1])
+
+        def scalar_of(s, ty, how, in_event=True):
+            """a scalar built around First(s) (in_event: the event parameter is in scope)"""
+            fst = {"k": "First", "s": s}
+            if ty == "bool":
+                if how == "arith":
+                    return {"k": "if", "c": fst, "a": {"k": "dbl", "v": "1.5"}, "b": {"k": "dbl", "v": "-1.5"}}, "double"
+                if how == "cmp":
+                    return {"k": "not", "a": fst}, "bool"
+                if how == "guarded":
+                    cnt = {"k": "Count", "s": copy.deepcopy(s)}
+                    return {"k": r.choice(["and"]), "a": {"k": "cmp", "op": ">", "a": cnt, "b": {"k": "int", "v": 0}}, "b": fst}, "bool"
+                return fst, "bool"
+            if how == "arith":
+                if self.allow_fn and ty == "double" and r.random() < 0.3:
+                    return {"k": "fn", "f": "fabs", "args": [fst]}, "double"
+                return {"k": "bin", "op": r.choice(["+", "-", "*"]), "a": fst, "b": r.choice([{"k": "int", "v": 2}, {"k": "dbl", "v": "0.5"}] + ([{"k": "Count", "s": C(bank, c)}] if in_event else []))}, ty
+            if how == "cmp":
+                return {"k": "cmp", "op": r.choice([">", "<", ">=", "=="]), "a": fst, "b": {"k": "int", "v": r.choice([0, 1, 2])}}, "bool"
+            if how == "guarded":
+                cnt = {"k": "Count", "s": copy.deepcopy(s)}
+                d = {"k": "dbl", "v": r.choice(["0.5", "10.0"])} if ty == "double" else {"k": "int", "v": r.choice([0, -1])}
+                if r.random() < 0.5:
+                    return {"k": "if", "c": {"k": "cmp", "op": r.choice([">", "!="]), "a": cnt, "b": {"k": "int", "v": 0}}, "a": fst, "b": d}, ty
+                return {"k": "if", "c": {"k": "cmp", "op": "==", "a": cnt, "b": {"k": "int", "v": 0}}, "a": d, "b": fst}, ty
+            return fst, ty
+
+        def row_of(cols, ev):
+            """the final row: the given columns plus one column per bank not used yet"""
+            cols = list(cols)
+            for b, cc in bl:
+                if b not in used:
+                    if r.random() < 0.5:
+                        cols.append({"k": "Count", "s": C(b, cc, ev)})
+                    else:
+                        y = self.fresh()
+                        cols.append({"k": "Select", "s": C(b, cc, ev), "x": y, "f": {"k": "meth", "o": {"k": "var", "n": y}, "n": r.choice(["d", "i", "g"])}})
+            if len(cols) == 1 and term != "row":
+                return cols[0], ["col1"]
+            if term == "row" and len(cols) == 1:
+                y = self.fresh()
+                cols.append({"k": "Select", "s": C(bank, c, ev), "x": y, "f": {"k": "meth", "o": {"k": "var", "n": y}, "n": r.choice(["d", "i", "g"])}} if r.random() < 0.6 else {"k": "Count", "s": C(bank, c, ev)})
+            r.shuffle(cols)
+            shape = r.choice(["tuple", "dict", "list"])
+            if shape == "dict":
+                ks = [f"k{i}_{r.choice(['pt', 'eta', 'n'])}" for i in range(len(cols))]
+                return {"k": "dict", "ks": ks, "es": cols}, ks
+            return {"k": shape, "es": cols}, [f"col{i}" for i in range(len(cols))]
+
+        if term == "two_step":
+            js = self.fresh("js")
+            s, ty, vform = self._fl_chain(r, {"k": "var", "n": js})
+            col, _ = scalar_of(s, ty, r.choice(["col", "col", "arith", "guarded"]), False)
+            self.first_lazy_form = (vform, term)
+            return {"k": "Select", "s": {"k": "Select", "s": ds, "x": e, "f": C(bank, c)}, "x": js, "f": col}, ["col1"], "two_step"
+        if term == "per_object":
+            o = self.fresh()
+            s, ty, vform = self._fl_chain(r, {"k": "meth", "o": {"k": "var", "n": o}, "n": "kids"})
+            col, _ = scalar_of(s, ty, r.choice(["col", "guarded", "guarded", "arith"]), False)
+            self.first_lazy_form = (vform, term)
+            return {"k": "Select", "s": {"k": "SelectMany", "s": ds, "x": e, "f": C(bank, c)}, "x": o, "f": col}, ["col1"], "selectmany"
+        if term == "nested":
+            # one First per element of the collection: a vector column
+            o = self.fresh()
+            s, ty, vform = self._fl_chain(r, {"k": "meth", "o": {"k": "var", "n": o}, "n": "kids"}, e, other)
+            note(vform)
+            col, _ = scalar_of(s, ty, "guarded" if ty != "bool" or True else "col")
+            body, names = row_of([{"k": "Select", "s": C(bank, c), "x": o, "f": col}], None)
+            self.first_lazy_form = (vform, term)
+            return {"k": "Select", "s": ds, "x": e, "f": body}, names, "select"
+        s, ty, vform = self._fl_chain(r, C(bank, c), e, other)
+        note(vform)
+        if term == "two":
+            s2, ty2, vform2 = self._fl_chain(r, C(bank, c), e, other)
+            note(vform2)
+            vform += "|" + vform2
+            if ty == "bool" or ty2 == "bool":
+                a, _ = scalar_of(s, ty, "arith" if ty == "bool" else "col")
+                b2, _ = scalar_of(s2, ty2, "arith" if ty2 == "bool" else "col")
+            else:
+                a, b2 = {"k": "First", "s": s}, {"k": "First", "s": s2}
+            col = {"k": "bin", "op": r.choice(["+", "-", "*"]), "a": a, "b": b2}
+        elif term == "where":
+            e2 = self.fresh("e")
+            cond, _ = scalar_of(s, ty, "col" if ty == "bool" else "cmp")
+            if r.random() < 0.5:
+                cond = {"k": "and", "a": {"k": "cmp", "op": ">", "a": {"k": "Count", "s": copy.deepcopy(s)}, "b": {"k": "int", "v": 0}}, "b": cond}
+            y = self.fresh()
+            cols = [{"k": "Select", "s": C(bank, c, e2), "x": y, "f": {"k": "meth", "o": {"k": "var", "n": y}, "n": r.choice(["d", "i", "g"])}} if r.random() < 0.5 else {"k": "Count", "s": C(bank, c, e2)}]
+            if "count_cross" in vform and other and r.random() < 0.5:
+                used.discard(other[1])  # (shown as a column of its own as well)
+            body, names = row_of(cols, e2)
+            self.first_lazy_form = (vform, term)
+            return {"k": "Select", "s": {"k": "Where", "s": ds, "x": e, "f": cond}, "x": e2, "f": body}, names, "where_select"
+        else:
+            col, _ = scalar_of(s, ty, term if term in ("arith", "guarded", "cmp") else "col")
+        body, names = row_of([col], None)
+        self.first_lazy_form = (vform, term)
+        return {"k": "Select", "s": ds, "x": e, "f": body}, names, "select"
+
+    # ---- labels of the final row
+    def label_pass(self, q, names):
+        """In a fixed share of the queries whose final row has >= 2 labelled columns (decided by the query's own
+        text: no draw from the generator's random stream) the labels are replaced by a group of labels that differ
+        only in characters that cannot be part of an identifier (`mu.pt`, `mu_pt`, `mu pt`: every storage variable
+        is named after the identifier characters of its label), or that extend one another by digits (`jet`,
+        `jet1`: the name counter is glued to the label). `names` is updated in place; returns q.
+        (Listed finding kept outside: a label that extends another by digits comes AFTER it — `x1` before `x` can
+        give the two columns one variable when the counter of `x` is ten times larger.)"""
+        import random as _random
+        import zlib
+
+        self.labelled = None
+        body = q.get("f") if isinstance(q, dict) and q.get("k") == "Select" else None
+        if self.labels <= 0 or not isinstance(body, dict) or body.get("k") not in ("dict", "tuple", "list") or len(body.get("es", [])) < 2:
+            return q
+        h = zlib.crc32(("labels|" + json.dumps(q, sort_keys=True)).encode())
+        if h % 100 >= (self.labels if body["k"] == "dict" else self.labels * LABEL_ROW_PCT // LABEL_PCT):
+            return q
+        r = _random.Random(h)
+        n = len(body["es"])
+        ordered, group = r.choice(LABEL_GROUPS)
+        idx = sorted(r.sample(range(len(group)), min(n, len(group))))
+        labels = [group[i] for i in idx]
+        if not ordered:
+            r.shuffle(labels)
+        old = list(body["ks"]) if body["k"] == "dict" else [f"k{i}_{r.choice(['pt', 'eta', 'n'])}" for i in range(n)]
+        pos = sorted(r.sample(range(n), len(labels)))
+        ks = list(old)
+        for p, l in zip(pos, labels):
+            ks[p] = l
+        if body["k"] != "dict":
+            body["k"] = "dict"
+        body["ks"] = ks
+        names[:] = ks
+        self.labelled = labels
+        return q
+
     # ---- columns and tops
     def column(self, env, depth):
         r = self.rng
@@ -790,11 +1085,13 @@ class Gen:
 
     def top_first_mix(self):
         q, names, form = self._top_first_mix()
-        return self.shadow_pass(q), names, form
+        q = self.shadow_pass(q)
+        return self.label_pass(q, names), names, form
 
     def top(self):
-        q, names, form = self._top()
-        return self.shadow_pass(q), names, form
+        q, names, form = self.first_lazy_pass(*self._top())
+        q = self.shadow_pass(q)
+        return self.label_pass(q, names), names, form
 
     def _top_first_mix(self):
         """event-level row mixing vector columns with an (unguarded) First column: on an event where the
@@ -961,9 +1258,33 @@ class Gen:
 
 ODD_BANKS = ['q"z', "q'z", "q\\z", "q??/z"]
 
+# (ordered?, labels): labels of one group are made into the same identifier, or into identifiers that extend one
+# another by digits (ordered: the shorter label first, see Gen.label_pass)
+LABEL_GROUPS = [
+    (False, ["mu.pt", "mu_pt", "mu pt"]),
+    (False, ["jet-pt", "jet_pt", "jet:pt"]),
+    (False, ["el.eta", "el eta", "el_eta"]),
+    (False, ["n.trk", "n_trk", "n trk"]),
+    (False, ["pt.", "pt_", "pt "]),
+    (True, ["jet", "jet1", "jet12"]),
+    (True, ["pt", "pt2", "pt20"]),
+    (True, ["mu.pt", "mu_pt", "mu_pt1"]),
+    (True, ["x", "x0", "x_0"]),
+]
+
+
+class Banks(dict):
+    """bank -> collection name of a query. `rich`: the query takes First() of a projection whose value needs
+    statements of its own (`gen_event` then makes the first events drawn for it rich, see `enrich_event`);
+    `calls`: number of events drawn for it so far."""
+
+    rich = False
+    calls = 0
+
 
 def banks_used(q: Any, acc: Optional[Dict[str, str]] = None) -> Dict[str, str]:
-    acc = {} if acc is None else acc
+    top = acc is None
+    acc = Banks() if acc is None else acc
     if isinstance(q, dict):
         if q.get("k") == "coll":
             acc[q["bank"]] = q["c"]
@@ -972,6 +1293,38 @@ def banks_used(q: Any, acc: Optional[Dict[str, str]] = None) -> Dict[str, str]:
     elif isinstance(q, list):
         for v in q:
             banks_used(v, acc)
+    if top:
+        acc.rich = bool(first_lazy_sites(q))
+    return acc
+
+
+STATEMENT_KINDS = ("if", "and", "or", "Count", "Sum", "Aggregate", "Min", "Max", "First")
+
+
+def needs_statements(q: Any) -> bool:
+    """the translator has to emit statements (and declare a variable) for the value of q"""
+    if isinstance(q, dict):
+        return q.get("k") in STATEMENT_KINDS or any(needs_statements(v) for v in q.values())
+    if isinstance(q, list):
+        return any(needs_statements(v) for v in q)
+    return False
+
+
+def first_lazy_sites(q: Any, acc: Optional[List[Dict[str, Any]]] = None) -> List[Dict[str, Any]]:
+    """the First() nodes of q whose sequence is (a filtered) projection with a body that needs statements"""
+    acc = [] if acc is None else acc
+    if isinstance(q, dict):
+        if q.get("k") == "First":
+            s = q.get("s")
+            while isinstance(s, dict) and s.get("k") == "Where":
+                s = s.get("s")
+            if isinstance(s, dict) and s.get("k") == "Select" and needs_statements(s.get("f")):
+                acc.append(q)
+        for v in q.values():
+            first_lazy_sites(v, acc)
+    elif isinstance(q, list):
+        for v in q:
+            first_lazy_sites(v, acc)
     return acc
 
 
@@ -1269,7 +1622,65 @@ def gen_event(rng, backend: str, banks: Dict[str, str], empty_bias=0.25) -> Dict
         n = 0 if rng.random() < empty_bias else rng.choice([1, 1, 2, 3, 4])
         objs = [gen_obj(rng, elem_type(backend, coll), 2) for _ in range(n)]
         bs.append({"bank": bank, "type": cont_type(backend, coll), "content": {"v": objs}})
-    return {"banks": bs}
+    ev = {"banks": bs}
+    if getattr(banks, "rich", False):
+        k = banks.calls
+        banks.calls += 1
+        if k in RICH_EVENTS:
+            enrich_event(ev, k)
+    return ev
+
+
+RICH_EVENTS = (0, 1, 3)  # which of the events drawn for a `rich` query are enriched
+
+
+def _attr(o: Dict[str, Any], k: str) -> Dict[str, Any]:
+    return next(a["v"] for a in o["o"]["a"] if a["k"] == k)
+
+
+def _make_differ(r, first: Dict[str, Any], last: Dict[str, Any], depth: int) -> None:
+    """change `last` so that every scalar accessor, the number of vs() and the number (and sum) of kids() differ from
+    `first`'s; both get at least two kids (which differ from one another in the same way) while depth > 0"""
+    ty = first["o"]["ty"]
+    for k, vals in (("i", [0, 1, 2, 3, 5, -1, -3]), ("j", [0, 1, 2, 4])):
+        a, b = _attr(first, k), _attr(last, k)
+        if a["i"] == b["i"]:
+            b["i"] = r.choice([v for v in vals if v != a["i"]])
+    for k in ("f", "d", "g"):
+        a, b = _attr(first, k), _attr(last, k)
+        if a["d"] == b["d"]:
+            b["d"] = r.choice([v for v in HALVES if v != a["d"]])
+    if r.random() < 0.7:
+        _attr(last, "b")["b"] = not _attr(first, "b")["b"]
+    va, vb = _attr(first, "vs")["v"], _attr(last, "vs")["v"]
+    if len(va) == len(vb):
+        vb.append({"d": r.choice(HALVES[1:7])})
+    if depth > 0:
+        ka, kb = _attr(first, "kids")["v"], _attr(last, "kids")["v"]
+        while len(ka) < 2:
+            ka.append(gen_obj(r, ty, depth - 1))
+        while len(kb) < 2 or len(kb) == len(ka):
+            kb.append(gen_obj(r, ty, depth - 1))
+        _make_differ(r, ka[0], ka[-1], depth - 1)
+        _make_differ(r, kb[0], kb[-1], depth - 1)
+        _make_differ(r, ka[0], kb[0], 0)
+
+
+def enrich_event(ev: Dict[str, Any], k: int = 0) -> Dict[str, Any]:
+    """Every bank of the event gets at least two elements, and the first and the last element of each bank differ
+    in every accessor (so do the first and last of their kids). Random choices from a generator of its own, seeded by
+    the event's text: the caller's random stream is not touched. In place."""
+    import random as _random
+    import zlib
+
+    r = _random.Random(zlib.crc32(json.dumps([k, ev], sort_keys=True).encode()))
+    for b in ev["banks"]:
+        objs = b["content"]["v"]
+        ty = next((cont[: -len(suffix)] for cont, suffix in ((b["type"], "Container"), (b["type"], "Collection")) if cont.endswith(suffix)), b["type"])
+        while len(objs) < 2:
+            objs.append(gen_obj(r, ty, 2))
+        _make_differ(r, objs[0], objs[-1], 2)
+    return ev
 
 
 # ---------------------------------------------------------------- package JSON from a pipeline result
